@@ -273,6 +273,44 @@ def run(ctx):
             judge(what, spec, stream, must_reject=(n > lim), must_accept=(n + 2 * lines <= lim), size_errors=("LimitRequestHeaders",),
                   key=(fam, what), read_body=rb)
         ctx.hist("family", fam)
+    # chunk-size line and trailer block found within one read but beyond the cap (the test after the terminator was seen)
+    head = b"POST / HTTP/1.1\r\nTransfer-Encoding: chunked\r\n\r\n"
+    for fields, fsize in ((1, 30), (2, 40)) if ctx.quick() else ((1, 30), (2, 40), (3, 100), (1, 0)):
+        spec = lp.make_spec(limit_request_fields=fields, limit_request_field_size=fsize)
+        cap = doc_eff_fields(fields) * ((doc_eff_field_size(fsize) or DEF_FIELD) + 2) + 4
+        for d in (-6, -3, -2, -1, 0, 1, 2, 3, 6):
+            # chunk-size line "3;xxxx" of `ln` bytes (without its CRLF)
+            ln = cap + d
+            if ln >= 3:
+                line = b"3;" + b"x" * (ln - 2)
+                stream = head + line + b"\r\nabc\r\n0\r\n\r\n"
+                judge("chunk-size line of %d bytes, cap %d" % (ln, cap), spec, stream,
+                      must_reject=(ln > cap), must_accept=(ln + 2 <= cap), size_errors=("InvalidChunkSize", "LimitRequestHeaders"),
+                      key=("chunkline", fields, fsize, d), read_body=True)
+                ctx.hist("family", "chunk-size-line")
+            # trailer block of `tb` bytes up to its terminating empty line, made of as many fields as allowed
+            if fsize == 0 or fields == 1:
+                continue
+        # trailer block: `fields` fields of maximal size fit; one byte more per field does not
+        if fsize:
+            for extra in (0, 1, 3):
+                f_len = fsize - 2 + extra                       # field line without CRLF
+                tr = b"".join(b"T%d: " % i + b"v" * (f_len - 4) + b"\r\n" for i in range(fields))
+                stream = head + b"3\r\nabc\r\n0\r\n" + tr + b"\r\n"
+                judge("trailer block of %d fields of %d bytes, limits %d / %d" % (fields, f_len, fields, fsize), spec, stream,
+                      must_reject=(f_len > fsize), must_accept=(extra == 0), size_errors=("LimitRequestHeaders",),
+                      key=("trailerblock", fields, fsize, extra), read_body=True)
+                ctx.hist("family", "trailer-block")
+    # a trailer block beyond the cap of the whole block while every field is within an unlimited field size
+    spec = lp.make_spec(limit_request_fields=1, limit_request_field_size=0)
+    cap = 1 * (DEF_FIELD + 2) + 4
+    for d in (-8, -5, -4, -3, 0, 4):
+        tr = b"T: " + b"v" * (cap + d - 3)                       # idx of CRLFCRLF = cap + d
+        stream = head + b"3\r\nabc\r\n0\r\n" + tr + b"\r\n\r\n"
+        judge("trailer block of %d bytes with limit_request_field_size=0, cap %d" % (cap + d, cap), spec, stream,
+              must_reject=(d > 0), must_accept=(cap + d + 4 <= cap), size_errors=("LimitRequestHeaders",),
+              key=("trailercap", d), read_body=True)
+        ctx.hist("family", "trailer-block")
     # dropped fields (header_map = drop) count as well
     spec = lp.make_spec(limit_request_fields=2)
     judge("4 underscore fields dropped by header_map=drop, limit_request_fields=2", spec,
